@@ -231,6 +231,49 @@ def repo_tests_phase(ctx, prop):
             ctx.cov.setdefault("violations_of_sibling_properties", []).append("%s: %s" % (owner, what[:200]))
 
 
+def file_store_phase(ctx, only=None):
+    """C09 carry-through, storage side: spec/FileChan.tla (emit_file's EventBatch as an emit_batcher::Channel, with
+    the buffers it retains as state) and its eager behaviours replayed on a real FileSet whose worker is parked in an
+    injected filesystem, the live heap measured by a counting allocator (harness c09_file_store)."""
+    t = "quick" if ctx.quick else "thorough"
+    r = ctx.tlc("FileChan", "FileChan_%s.cfg" % t, workers=2, timeout=600, xmx="2g", label="FileChan")
+    if r.violated:
+        ctx.spec_violation(r, "C09 carry-through to rolling files: FileChan.tla: %s violated by the transcription of EventBatch" % r.violated)
+        return
+    ctx.require_actions(r, ["Send", "Take", "Finish"], "FileChan")
+    rb = ctx.tlc("FileChan", "FileChan_lazy.cfg", workers=1, timeout=120, xmx="1g", coverage=False,
+                 expect_violation=True, count=False, label="FileChan_lazy")
+    if rb.violated != "StoreBounded":
+        raise vlib.ToolError("FileChan_lazy.cfg: a clear that only moves the cursor no longer violates StoreBounded (%s)" % rb.violated)
+    rr = ctx.tlc("FileChan", "FileChan_replay_%s.cfg" % t, workers=1, timeout=600, xmx="2g", label="FileChan_replay")
+    if rr.violated:
+        ctx.spec_violation(rr, "FileChan.tla (eager behaviours): %s" % rr.violated)
+        return
+    cases = os.path.join(ctx.out, "filechan-cases.ndjson")
+    lines = sorted(set(vlib.iter_printed(rr.out_path, "REPLAY")))
+    if only is not None:
+        lines = [json.dumps(only)]
+    if not lines:
+        raise vlib.ToolError("FileChan: TLC printed no behaviours")
+    with open(cases, "w") as f:
+        for l in lines:
+            f.write(l + "\n")
+    bindir = ctx.cargo_build("vh_file", bins=["c09_file_store"])
+    rep_path = os.path.join(ctx.out, "filechan-report.json")
+    ctx.run_harness(os.path.join(bindir, "c09_file_store"), [cases, rep_path])
+    rep = json.load(open(rep_path))
+    ctx.cov["traces_validated_against_impl"] += rep["cases"]
+    ctx.cov["file_channel_storage"] = {"behaviours": rep["cases"], "steps_measured": rep["checks"], "lazy_design_violates": rb.violated,
+                                       **rep["extra"]}
+    ctx.assumptions.append("FileChan: one model event is one real event of 256 KiB; the live heap of the process above a warmed-up "
+                           "baseline is compared with (pending + in flight) events after every step, slack half an event")
+    for m in rep["mismatches"]:
+        ctx.violation("C09 carry-through to rolling files: %s: %s" % (m["what"], json.dumps(m["detail"])[:300]),
+                      {"file_store": m["case"]}, signature="filechan " + m["what"])
+    if only is None and not rep["mismatches"] and not rep["extra"].get("cases_with_truncations"):
+        raise vlib.ToolError("vacuity: no replayed behaviour of FileChan.tla had a truncation")
+
+
 def flush_trees(ctx):
     """Carry-through of a flush through destination combinators: spec/Flush.tla (M) and its
     cases replayed on the real And/Option/Box/Arc/&/erased/wrap/Runtime (G)."""
@@ -302,6 +345,9 @@ def run(ctx, prop):
         else:
             otlp_common.otlp_bounded_phase(ctx, only=rc0["otlp_bounded"])
         return
+    if isinstance(rc0, dict) and "file_store" in rc0:
+        file_store_phase(ctx, only=rc0["file_store"])
+        return
 
     # ------------------------------------------------------------------ C07: flush through combinators
     if prop == "C07" and ctx.replay_case() is None:
@@ -321,6 +367,8 @@ def run(ctx, prop):
         # the OTLP emitter's own Channel implementation obeys the same bound (OtlpChan.tla)
         from checks import otlp_common
         otlp_common.otlp_bounded_phase(ctx)
+        # ... and what emit_file's channel keeps alive is what is pending (FileChan.tla)
+        file_store_phase(ctx)
 
     # ------------------------------------------------------------------ the unbounded ledger
     if ctx.replay_case() is None:
